@@ -25,12 +25,12 @@ CLAIMED = {
     technique="generated Kani harnesses (one per primitive!() table entry and per arithmetic interpreter arm) + Verus contracts on extracted bodies",
     design="2/C06"),
  "C07": dict(
-    text="Proof of the three limit computations: Kani (symbolic counters, full usize domain) on the real Gc::alloc_owned (accounted memory never exceeds the limit; failure leaves the heap untouched) and check_collect; Verus on the real add_new_frame (frame entered iff len + max_stack_size <= limit), enter_scope / enter_scope_excess, on the per-instruction step of static stack accounting (adjust/emit/increase_stack/emit_call), on the tail flag of the && / || operands, on every TailCall arm of the interpreter (frame list shrinks and the new call reuses the returning function's slot: constant stack) on ExecuteContext::exit_scope, and on the head of the frame loop of OwnedContext::execute (every pass -- call, tail call, return -- polls the interrupt flag before dispatching), on Thread::interrupted (a pure poll: it does not write the flag) and on the statements of compile_'s Match arm from the binding of an alternative's pattern to the compilation of its body (the body inherits the tail flag whatever the pattern binds). Also: a spawned thread inherits its spawner's memory limit (Gc::new_child_gc) and stack limit (Thread::new_thread). Found and repaired the header-not-counted defect and the unlimited stack of spawned threads.",
+    text="Proof of the three limit computations: Kani (symbolic counters, full usize domain) on the real Gc::alloc_owned (accounted memory never exceeds the limit; failure leaves the heap untouched) and check_collect; Verus on the real Stack::set_max_stack_size / max_stack_size (limit stored as given), add_new_frame (frame entered iff len + max_stack_size <= limit), enter_scope / enter_scope_excess, on the per-instruction step of static stack accounting (adjust/emit/increase_stack/emit_call), on the tail flag of the && / || operands, on every TailCall arm of the interpreter (frame list shrinks and the new call reuses the returning function's slot: constant stack) on ExecuteContext::exit_scope, and on the head of the frame loop of OwnedContext::execute (every pass -- call, tail call, return -- polls the interrupt flag before dispatching), on Thread::interrupted (a pure poll: it does not write the flag) and on the statements of compile_'s Match arm from the binding of an alternative's pattern to the compilation of its body (the body inherits the tail flag whatever the pattern binds). Also: a spawned thread inherits its spawner's memory limit (Gc::new_child_gc) and stack limit (Thread::new_thread). Found and repaired the header-not-counted defect and the unlimited stack of spawned threads.",
     note="Trusted: get_type_info stubbed; allocated_memory <= isize::MAX; no u32 wrap in len+max_stack_size; operand_fits; the interrupt flag is a pure read for one loop iteration and the rest of the loop body is not in the extracted head; the statement that binds a match alternative's pattern variables is abstracted to an opaque call. That one pass of the loop takes bounded time (extern functions), native-stack depth and the induction over compile_ are not under contract.",
     technique="Kani harnesses on the real allocator + Verus contracts on extracted bodies",
     design="2/C07"),
  "C08": dict(
-    text="Partial proof: built-in operator fixity table (real OpTable::get, concrete enumeration, Kani); the span algebra (Span::new/to/between/until/with_*/subspan/from_offset, Location::shift; full u32 domain, Kani) that parser actions and 'spans delimit the text' are built from; and Verus contracts on text extracted every run: the shift/reduce step of the operator-precedence re-parse (lower precedence or equal+both-left reduces, higher or equal+both-right shifts, equal precedence with different associativity is reported as ConflictingFixities), the final fold of reparse (operators still pending group to the right, in order, over all operands; inductive invariant + lemma; the closing assertion and unwraps cannot fire), shrink_hidden_spans against a specification of where each expression kind visibly ends (singleton block flattening included), the fold step of the BlockExpr grammar action (taken from grammar.lalrpop: `e; rest` becomes Do { bound: e, body: rest } spanning start of e .. end of rest), the layout algorithm's context-stack operations (Contexts::push/pop, Offside::new) layout_token, and five pieces of layout_next_token: the implicit top-level block opened at the first token, the CloseBlock arm, the implicit `in` (emitted at the token that ended the binding; body block at the location of the binding), the explicit `in` closing a let/type/rec context (body block opened at the location of the enclosing context, separator flag cleared, OpenBlock queued) and the block separator (a token at the column of a block that already holds an expression gets one separator in front of it), and Tokenizer::block_comment with take_until (a block comment ends at the first `*/` behind its opening and scanning resumes right behind it; EOF error only if there is none; inductive invariants).",
+    text="Partial proof: built-in operator fixity table (real OpTable::get, concrete enumeration, Kani); the span algebra (Span::new/to/between/until/with_*/subspan/from_offset, Location::shift; full u32 domain, Kani) that parser actions and 'spans delimit the text' are built from; and Verus contracts on text extracted every run: the shift/reduce step of the operator-precedence re-parse (lower precedence or equal+both-left reduces, higher or equal+both-right shifts, equal precedence with different associativity is reported as ConflictingFixities), the final fold of reparse (operators still pending group to the right, in order, over all operands; inductive invariant + lemma; the closing assertion and unwraps cannot fire), shrink_hidden_spans against a specification of where each expression kind visibly ends (singleton block flattening included), the fold step of the BlockExpr grammar action (taken from grammar.lalrpop: `e; rest` becomes Do { bound: e, body: rest } spanning start of e .. end of rest), the layout algorithm's context-stack operations (Contexts::push/pop, Offside::new) layout_token, and six pieces of layout_next_token: the implicit top-level block opened at the first token, the CloseBlock arm, the closing of an open implicit block in front of a closing token, the implicit `in` (emitted at the token that ended the binding; body block at the location of the binding), the explicit `in` closing a let/type/rec context (body block opened at the location of the enclosing context, separator flag cleared, OpenBlock queued) and the block separator (a token at the column of a block that already holds an expression gets one separator in front of it), and Tokenizer::block_comment with take_until (a block comment ends at the first `*/` behind its opening and scanning resumes right behind it; EOF error only if there is none; inductive invariants).",
     note="No grouping theorem for reparse as a whole: the token loop that connects step and final fold, the Infixes iterator and error recovery are not under contract; `make_op` is uninterpreted. shrink unit: AST projected on spans and last sub-expressions, slice patterns desugared to length tests, Span::new's ordering contract assumed there (proved by the Kani harness). Of the layout algorithm only the top-level-block, CloseBlock, explicit-in and separator arms, the implicit-in statements, layout_token and the stack operations, of the tokenizer only block_comment/take_until (one-byte primitives bump/lookahead assumed, string operations of the doc-comment branch opaque), of the grammar only that one action are under contract; check_unindentation_limit is assumed not to change the stack. User-declared fixities overriding built-ins is only a structural Verus check (hash maps are intractable for CBMC).",
     technique="Kani harnesses (complete: loop-free or concrete) on compiled code + Verus contracts on functions, blocks, arms and a grammar action extracted from the parser sources",
     design="2/C08"),
